@@ -40,6 +40,46 @@ def draw(rng):
     return k, n, d
 
 
+def run_worker(ctx, stage, reqs):
+    """the requests through harness/drivers/timeconv_worker.py; returns (events, number of inputs that killed the worker)"""
+    import json
+    import os
+    import subprocess
+    import sys
+
+    from ..core import VERIF
+
+    fin, fout = os.path.join(ctx.work, "c03_in.txt"), os.path.join(ctx.work, "c03_out.ndjson")
+    with open(fin, "w") as fh:
+        for r in reqs:
+            fh.write(" ".join(str(x) for x in r) + "\n")
+    open(fout, "w").close()
+    skip, crashes, evs = 0, 0, []
+    while skip < len(reqs):
+        p = subprocess.run([sys.executable, os.path.join(VERIF, "harness", "drivers", "timeconv_worker.py"), stage, fin, fout, str(skip), VERIF],
+                           stdout=subprocess.DEVNULL, stderr=subprocess.PIPE)
+        with open(fout) as fh:
+            lines = fh.read().splitlines()
+        done = len(lines)
+        if p.returncode == 0:
+            if done != len(reqs) - crashes:
+                raise Machinery("conversion worker returned %d of %d records" % (done, len(reqs) - crashes))
+            break
+        if p.returncode > 0:
+            raise Machinery("conversion worker failed: %s" % p.stderr.decode(errors="replace")[-800:])
+        # killed by a signal: the request after the last record is the one native code died on
+        bad = done + crashes
+        crashes += 1
+        ctx.violation("the conversion functions killed the calling process (signal %d) on input %s" % (-p.returncode, " ".join(str(x) for x in reqs[bad])),
+                      {"request": list(reqs[bad]), "signal": -p.returncode})
+        skip = bad + 1
+        if crashes >= 5:
+            break
+    with open(fout) as fh:
+        evs = [json.loads(l) for l in fh if l.strip()]
+    return evs, crashes
+
+
 def run(ctx):
     ctx.model_check("MCTimeConv", "MCTimeConv.cfg" if not ctx.quick else "MCTimeConv_quick.cfg", coverage=False)
     ctx.model_check("MCTimeConv", "MCTimeConv_witness.cfg", expect_violated=("W_AlwaysOnGrid",), coverage=False, tag="w")
@@ -48,22 +88,24 @@ def run(ctx):
     if not cv.has_c:
         raise Machinery("digital_rf_get_timestamp_floor / digital_rf_get_sample_ceil are not exported by the built extension")
     rng = ctx.rng
-    evs = []
+    # the inputs first; the real functions are called in a worker process, so that an input on which native code dies
+    # (a division by zero, say) is named instead of taking the check down
+    reqs = []
     # (a) the complete small scope at the real unit constants
     K, N, D = ctx.pick((96, 40, 12), (512, 40, 12))
     for n in range(1, N):
         for d in range(1, D):
             for k in range(K):
-                evs.append(cv.conv_event(k, n, d))
-    nsmall = len(evs)
+                reqs.append(("conv", k, n, d))
+    nsmall = len(reqs)
     # (b) biased random draws at full magnitude
     for _ in range(ctx.pick(12000, 600000)):
-        evs.append(cv.conv_event(*draw(rng)))
-    nconv = len(evs)
+        reqs.append(("conv",) + draw(rng))
+    nconv = len(reqs)
     # (c) ceil on arbitrary timestamps (not on the sample grid), incl. 1..999 ps after an exact sample instant
     for _ in range(ctx.pick(8000, 300000)):
         k, n, d = draw(rng)
-        sec, ps = cv.floor(k, n, d)
+        sec, ps = (k * d) // n, ((k * d) % n) * 10**12 // n       # the definition (the real floor is under test elsewhere)
         r = rng.random()
         if r < 0.4:
             ps2 = ps + rng.choice([1, 2, 999, 1000, 1001, rng.randint(1, 10**6)])
@@ -78,12 +120,13 @@ def run(ctx):
         sec = rng.choice([sec, sec, rng.randint(0, 253402300799)])
         if (sec * 10**12 + ps2) * n // (d * 10**12) >= 2**63:
             continue
-        evs.append(cv.ceil_event(sec, ps2, n, d))
+        reqs.append(("ceil", sec, ps2, n, d))
+    evs, crashes = run_worker(ctx, st, reqs)
     per = 400
     scen = [dict(name="batch%d" % i, events=evs[i:i + per]) for i in range(0, len(evs), per)]
     ctx.evaluations = len(evs)
     ctx.extra.update(
-        small_scope_records=nsmall, random_conv_records=nconv - nsmall, ceil_records=len(evs) - nconv,
+        small_scope_records=nsmall, random_conv_records=nconv - nsmall, ceil_records=len(reqs) - nconv, inputs_that_killed_the_worker=crashes,
         rule="complete small scope k<%d, n<%d, d<%d through the real C functions and get_unix_time, plus random draws biased to "
              "k mod n in {0,1,n-1}, k near 2^63 / year 9999, n near 2^32, d up to 10^9 with n*d<2^64, and ceil on timestamps 1-999 ps "
              "off the sample grid; every record is decided by TLC with exact limb arithmetic" % (K, N, D))
